@@ -153,6 +153,22 @@ func (r *c13Run) build(f c13Frame, channelID, tokenID uint32, seq *uint32, msgTy
 	case "huge-array-length": // a well-formed message whose last array claims millions of elements
 		var body []byte
 		n := []uint32{0x01000000, 0x02000000}[f.B%2]
+		if f.B%3 == 2 {
+			// the dimension count of a Variant array (each dimension takes four bytes on the wire)
+			n *= 2
+			v, _ := ua.NewVariant([]int32{5})
+			mv := ua.MustVariant([][]int32{{5}}) // one element, dimensions [1 1]
+			_ = v
+			if msgType == "req" {
+				body, _ = encodeService(&ua.WriteRequest{RequestHeader: &ua.RequestHeader{AuthenticationToken: ua.NewTwoByteNodeID(0), Timestamp: time.Now(), AdditionalHeader: ua.NewExtensionObject(nil)},
+					NodesToWrite: []*ua.WriteValue{{NodeID: ua.NewNumericNodeID(1, 1), AttributeID: ua.AttributeIDValue, Value: &ua.DataValue{EncodingMask: ua.DataValueValue, Value: mv}}}})
+				binary.LittleEndian.PutUint32(body[len(body)-12:], n) // dimensions length, followed by two dimensions
+			} else {
+				body, _ = encodeService(&ua.ReadResponse{ResponseHeader: rawRespHeader(uint32(f.A), ua.StatusOK), Results: []*ua.DataValue{{EncodingMask: ua.DataValueValue, Value: mv}}})
+				binary.LittleEndian.PutUint32(body[len(body)-16:], n) // ... and the DiagnosticInfos length behind them
+			}
+			return [][]byte{chunk('F', uint32(3000+f.A), body)}
+		}
 		if msgType == "req" {
 			body, _ = encodeService(&ua.ReadRequest{RequestHeader: &ua.RequestHeader{AuthenticationToken: ua.NewTwoByteNodeID(0), Timestamp: time.Now(), AdditionalHeader: ua.NewExtensionObject(nil)}})
 			binary.LittleEndian.PutUint32(body[len(body)-4:], n) // NodesToRead
